@@ -68,6 +68,14 @@ trait System : Sized
             // prelude/world.rs proves them; repeated here so that call sites need no hint)
             kept(*old(w), *final(w)), inv_cache(*old(w)) ==> inv_cache(*final(w)), mt(*old(w)) ==> mt(*final(w));
 
+    // (test-only in the pinned trait; contracted so that code which starts to use it is checked, not skipped)
+    fn remove_file(&mut self, path: &str, Tracked(w): Tracked<&mut World>) -> (r: Result<(), SystemError>)
+        requires step_ok_remove(*old(w), path@),     //# O-step-remove [C08]
+        ensures same_consts(*old(w), *final(w)), final(w).execs == old(w).execs, final(w).dirs == old(w).dirs,
+            r is Ok ==> old(w).files.contains_key(path@) && final(w).files == old(w).files.remove(path@),
+            r is Err ==> *final(w) == *old(w),
+            kept(*old(w), *final(w)), inv_cache(*old(w)) ==> inv_cache(*final(w)), mt(*old(w)) ==> mt(*final(w));
+
     fn get_modified(&self, path: &str, Tracked(w): Tracked<&mut World>) -> (r: Result<SystemTime, SystemError>)
         ensures *final(w) == *old(w),
             r matches Ok(st) ==> (old(w).files.contains_key(path@) || old(w).dirs.contains(path@))
